@@ -108,6 +108,7 @@ func init() {
 				out = append(out, Instance{Scenario: "pipe", Params: mustJSON(PipeParams{Mode: "script", Layout: l, Depth: d, Ops: ops, CrashEnd: true}), Bound: 0, Shards: 4})
 			}
 			out = append(out, Instance{Scenario: "pipe_malformed", Params: mustJSON(struct{}{}), Bound: 0})
+			out = append(out, Instance{Scenario: "c06_resumenomarker", Params: mustJSON(struct{}{}), Bound: 0, Note: "a resumed stream (restart or re-open) that begins with an item no marker of that stream announced stops the client, also when the item lies inside the STORED snapshot"})
 			out = append(out, Instance{Scenario: "c06_skipmalformed", Params: mustJSON(struct{}{}), Bound: 0, Note: "skipUntil configured + an event outside its snapshot that is older than skipUntil: no tracked / reported / stored offset leaves its snapshot"})
 			out = append(out, Instance{Scenario: "c12_finite", Params: mustJSON(FiniteParams{}), Bound: 0, Shards: 2, Note: "finite mode with a last snapshot that reaches past the end of the run: offsets carry the announced range"})
 			out = append(out, Instance{Scenario: "reopen_life", Params: mustJSON(LifeParams{Oracle: "tuple", Segs: 2, EarlySave: true}), Bound: 0, Shards: 8, Note: "the same with a save before the first re-open"})
@@ -542,6 +543,72 @@ func init() {
 				return []string{"execution ended with status " + r.Status.String()}
 			}
 			return nil
+		}}
+	}
+}
+
+// c06_resumenomarker: a session that RESUMES from a stored checkpoint taken in the middle of a snapshot
+// (seq 5 of [1,10]) - at start-up or at the re-open after a transient end - and whose stream begins with an
+// item that no snapshot marker of THIS stream announces (a server fault). The stored snapshot is not an
+// announcement: whether the item lies inside it or not, the client stops and the item is not delivered.
+func init() {
+	scenarios["c06_resumenomarker"] = func(raw json.RawMessage) *vrt.Scenario {
+		return &vrt.Scenario{Name: "c06_resumenomarker", FreeChoices: true, NoTimerAlt: true, MaxSteps: 200000, Main: func() {
+			resetGlobals()
+			kind := []string{"mutation", "deletion", "expiration"}[vrt.Choose(3, true, "kind")]
+			bad := []uint64{7, 10, 12}[vrt.Choose(3, true, "seq")] // inside the stored snapshot, at its end, beyond it
+			// (at a re-open the library keeps the observer, and with it the snapshot the ended stream had announced:
+			// an item inside THAT range is left open here; one beyond it must stop the client)
+			reopen := vrt.Choose(2, true, "at-a-re-open") == 1
+			if reopen && bad <= 10 {
+				vrt.SetOutcome("n/a")
+				return
+			}
+			o := EnvOpts{Vbs: 1, CheckpointType: "manual", WrapMeta: true}
+			c := NewCluster(&o)
+			uuid := uint64(c.Vb[0].Failover[0].VbUUID)
+			if reopen {
+				c.Append(0, marker(1, 10))
+			} else {
+				// (the server's history holds 1..5 as a complete snapshot today - it is not announced again to a
+				// stream that starts at 5; the range [1,10] exists in the store only)
+				c.Append(0, marker(1, 5))
+			}
+			for s := uint64(1); s <= 5; s++ {
+				c.Append(0, docPacket("mutation", s, fmt.Sprintf("k%d", s), "v", 0))
+			}
+			raw := docPacket(kind, bad, "unannounced", "v", 0)
+			raw.Raw = true
+			if !reopen {
+				seedCheckpoint(c, srcBucket, o.Group, 0, uuid, 5, 1, 10)
+				c.Append(0, raw)
+			}
+			e := NewEnv(c, o)
+			e.Cons.AutoAck = true
+			e.Stream.Open()
+			c.WaitIdle()
+			if reopen {
+				// five events delivered and acknowledged inside [1,10]; the stream ends, the re-opened one starts
+				// with the unannounced item
+				c.EndStream(0, gocbcore.ErrSocketClosed)
+				c.Append(0, raw)
+				vrt.Sleep(3e9)
+				vrt.Quiesce()
+				c.WaitIdle()
+			}
+			vrt.SetOutcome(fmt.Sprintf("%s@%d reopen=%v", kind, bad, reopen))
+			for _, d := range e.Cons.Events {
+				if d.Key == "unannounced" {
+					vrt.Failf("resumed from (seq 5, snapshot [1,10]): a %s at seq %d that no marker of the resumed stream announced was delivered (offset snapshot [%d,%d] comes from the store)", kind, bad, d.Snap[0], d.Snap[1])
+				}
+			}
+			vrt.Failf("resumed from (seq 5, snapshot [1,10]): a %s at seq %d without any snapshot marker on the resumed stream did not stop the client", kind, bad)
+		}, Classify: func(r *vrt.Result) []string {
+			if r.Outcome == "n/a" || r.Status == vrt.StatusCrash && strings.Contains(r.Crash.Value, "not in snapshot") {
+				r.Failures = nil
+				return nil
+			}
+			return []string{"status " + r.Status.String()}
 		}}
 	}
 }
